@@ -201,6 +201,8 @@ struct World
 
 void fire(int id) { g_world->on_fire(id); }
 
+// every time quantity of the history is multiplied by this (timer_manager_big: deadlines and elapsed times beyond 32 bits)
+static int64_t g_tm_scale = 1;
 void t_timer_manager(Src &s, Case &c)
 {
     int n = (int)s.range(1, kMaxTimers);
@@ -209,6 +211,9 @@ void t_timer_manager(Src &s, Case &c)
     int nops = (int)(s.coin() ? s.range(0, 15) : s.range(0, 80));
     c.log("timers=%d: ", n);
     int64_t now = (int64_t)s.range(0, 1000);
+    const int64_t K = g_tm_scale; // 1, or 2^28 / 2^31 / 2^33 in the timer_manager_big target (every time quantity scaled)
+    if (K > 1)
+        now = (int64_t)s.pick<int64_t>({0, 2147483147LL, 4294966796LL, 1LL << 40}) + now;
     w->now = now;
     for (int k = 0; k < nops; k++)
     {
@@ -218,8 +223,8 @@ void t_timer_manager(Src &s, Case &c)
         {
         case 0: // plan(t, start, interval): deliberately few distinct intervals so deadlines collide
         {
-            int64_t interval = (int64_t)s.pick({1, 2, 5, 10, 10, 50, 7});
-            int64_t start = now - (int64_t)s.pick({0, 0, 1, 5, 9, 10, 11, 100}) + (int64_t)s.pick({0, 0, 0, 10, 20});
+            int64_t interval = K * (int64_t)s.pick({1, 2, 5, 10, 10, 50, 7});
+            int64_t start = now - K * (int64_t)s.pick({0, 0, 1, 5, 9, 10, 11, 100}) + K * (int64_t)s.pick({0, 0, 0, 10, 20});
             c.log("plan(t%d,start=%lld,int=%lld) ", id, (long long)start, (long long)interval);
             w->do_plan(id, start, interval);
             break;
@@ -273,8 +278,8 @@ void t_timer_manager(Src &s, Case &c)
             Script sc = (Script)s.below(6);
             w->script[id] = sc;
             w->script_other[id] = (int)s.below((uint64_t)n);
-            w->script_a[id] = (int64_t)s.pick({0, 1, 5, 10});
-            w->script_b[id] = (int64_t)s.pick({1, 3, 10, 10});
+            w->script_a[id] = K * (int64_t)s.pick({0, 1, 5, 10});
+            w->script_b[id] = K * (int64_t)s.pick({1, 3, 10, 10});
             c.log("script(t%d:%s,other=t%d,a=%lld,b=%lld) ", id, script_name[sc], w->script_other[id], (long long)w->script_a[id],
                   (long long)w->script_b[id]);
             break;
@@ -291,12 +296,18 @@ void t_timer_manager(Src &s, Case &c)
 }
 
 // ------------------------------------------------------------------ stimer
+// the stimer_big target: times, intervals and elapsed times beyond 2^31 and 2^32 (the API takes long)
+static bool g_stimer_big = false;
+static long big_interval(Src &s) { return (long)s.pick<int64_t>({1, 1000, 1000000000LL, 2147483647LL, 2147483648LL, 4294967296LL, 8589934593LL}); }
+
 void t_stimer(Src &s, Case &c)
 {
     stimer_head t;
     stimer_init(&t, 0, 1);
     bool planned = false;
     long start = 0, interval = 1, now = (long)s.range(0, 100);
+    if (g_stimer_big)
+        now = (long)s.pick<int64_t>({0, 2147483643LL, 4294967293LL, 1099511627776LL, 1LL << 60});
     int nops = (int)s.range(0, 30);
     int fired = 0;
     c.log("stimer: ");
@@ -307,6 +318,8 @@ void t_stimer(Src &s, Case &c)
         case 0:
             start = now - (long)s.pick({0, 1, 5, 10});
             interval = (long)s.pick({1, 2, 10, 50});
+            if (g_stimer_big)
+                interval = big_interval(s);
             c.log("plan(%ld,%ld) ", start, interval);
             stimer_plan(&t, start, interval);
             planned = true;
@@ -314,6 +327,8 @@ void t_stimer(Src &s, Case &c)
         case 1:
             start = now;
             interval = (long)s.pick({1, 2, 10, 50});
+            if (g_stimer_big)
+                interval = big_interval(s);
             c.log("init(%ld,%ld) ", start, interval);
             stimer_init(&t, start, interval);
             planned = false;
@@ -326,6 +341,8 @@ void t_stimer(Src &s, Case &c)
             break;
         case 3:
             now += (long)s.pick({0L, 1L, interval - 1, interval, interval + 1, interval * 3 + 1});
+            if (g_stimer_big && s.coin())
+                now += (long)s.pick<int64_t>({2147483647LL, 2147483648LL, 4294967295LL, 4294967296LL, 3500000000LL});
             c.log("t=%ld ", now);
             break;
         default:
@@ -352,8 +369,36 @@ void t_stimer(Src &s, Case &c)
     c.nontrivial = fired >= 2;
 }
 
+void t_timer_manager_big(Src &s, Case &c)
+{
+    g_tm_scale = (int64_t)s.pick<int64_t>({1LL << 28, 1LL << 31, (1LL << 33) + 1});
+    struct G
+    {
+        ~G() { g_tm_scale = 1; }
+    } g;
+    c.log("time scale %lld: ", (long long)g_tm_scale);
+    t_timer_manager(s, c);
+    c.label("big_times");
+}
+void t_stimer_big(Src &s, Case &c)
+{
+    struct G
+    {
+        G() { g_stimer_big = true; }
+        ~G() { g_stimer_big = false; }
+    } g;
+    t_stimer(s, c);
+    c.label("big_times");
+}
+
 } // namespace
 
+VP_TARGET("timer_manager_big", t_timer_manager_big,
+          "the timer_manager histories with every interval, start offset, script offset and time step multiplied by 2^28, 2^31 or 2^33+1 and the clock starting "
+          "near 2^31, 2^32 or at 2^40 (deadlines and elapsed times that do not fit 32 bits); same reference scheduler and checks");
+VP_TARGET("stimer_big", t_stimer_big,
+          "the stimer history with start times up to 2^60, intervals from {1, 1000, 1e9, 2^31-1, 2^31, 2^32, 2^33+1} and time steps of 2^31-1 .. 2^32 and "
+          "3.5e9 on top of the usual ones (elapsed times that do not fit 32 bits); same due rule; non-trivial = >= 2 periodic hits");
 VP_TARGET("timer_manager", t_timer_manager,
           "histories (<= 80 ops) over <= 6 timers: plan(t,start,interval) with few distinct intervals (colliding deadlines), plan(t), "
           "unplan, exec(now) with non-decreasing time in steps {0,1,interval-1,interval,interval+1,many periods}, and per-timer "
